@@ -85,8 +85,9 @@ def has_tuple_with_nonleaf(root):
              and any(not isinstance(c, gen.Leaf) for c in n.items) for n in gen.walk(root))
 
 
-def run_case(rng, acc):
-  use_pos = rng.random() < 0.15
+def gen_pair(rng, acc, pos_fraction=0.15):
+  """Returns (old_root, new_root, edits, mode, old, new) or None."""
+  use_pos = rng.random() < pos_fraction
   opts = gen.Opts(max_nodes=rng.choice([3, 6, 10]), max_depth=4, p_share=0.3, p_clone=0.1,
                   btypes=['Config', 'Config', 'Partial'], fns=FNS + (POS_FNS if use_pos else []),
                   lattice=0.0, leaves=LEAVES, containers=['list', 'tuple', 'dict', 'dict', 'point'],
@@ -118,7 +119,7 @@ def run_case(rng, acc):
     old = gen.to_fiddle(old_root, memo_old)
   except Exception as e:  # pylint: disable=broad-except
     acc.obs('realise-failed:' + type(e).__name__)
-    return
+    return None
   memo_new = {}
   if mode == 'edits-sharing':
     # sub-objects untouched by the edits are THE SAME objects in old and new
@@ -136,7 +137,15 @@ def run_case(rng, acc):
     new = gen.to_fiddle(new_root, memo_new)
   except Exception as e:  # pylint: disable=broad-except
     acc.obs('realise-failed:' + type(e).__name__)
+    return None
+  return old_root, new_root, edits, mode, old, new
+
+
+def run_case(rng, acc):
+  pair = gen_pair(rng, acc)
+  if pair is None:
     return
+  old_root, new_root, edits, mode, old, new = pair
   so, sn = gen.sketch(old_root), gen.sketch(new_root)
   nb = sum(isinstance(n, gen.B) for n in gen.walk(new_root))
   acc.case((so, sn), bool(edits or mode == 'unrelated') and nb >= 2)
